@@ -15,7 +15,8 @@ BYTESV = (b'abc', b'', b'\xc3\xa9', b'\xe9', b'a\x00b\x00', b'\xff\xfe',
 ENCODINGS = ('utf-8', 'UTF-8', 'latin-1', 'utf-16-le', 'ascii', 'cp1252',
              'shift_jis')
 ERRORS = ('strict', 'ignore', 'replace')
-OTHERS = (5, None, 1.5, ['a'])
+OTHERS = (5, None, 1.5, ['a'], bytearray(b'abc'), memoryview(b'abc'), True,
+          ('a',), {'a': 1})
 UERR = ('UnicodeDecodeError', 'UnicodeEncodeError')
 
 
@@ -26,9 +27,50 @@ def _setup_types(kind, syms):
             interp.types[s] = 'str'
         interp.method_raises['decode'] = ['UnicodeDecodeError']
         interp.method_raises['encode'] = ['UnicodeEncodeError']
+        if kind == 'other':
+            # duck typing: whatever has the method gets it called
+            interp.pure_methods.update({'decode', 'encode'})
+            interp.method_raises['decode'] = ['UnicodeDecodeError',
+                                              'AttributeError', 'TypeError']
+            interp.method_raises['encode'] = ['UnicodeEncodeError',
+                                              'AttributeError', 'TypeError']
         interp.not_none.update({s: True for s in syms[1:]})
         interp.decide = lambda i, t: True if t in syms[1:] else None
+        # the process environment read by the default-encoding paths
+
+        def on_attr(i, base, name):
+            from ..core.values import ExtRef
+            if isinstance(base, ExtRef) and base.name == 'sys.stdin' and \
+                    name == 'encoding':
+                return ENV
+            return None
+        interp.on_attr = on_attr
+        interp.types[ENV] = 'str'
+
+        def on_call(i, name, f, args, kwargs):
+            if name == 'sys.getdefaultencoding':
+                return K('utf-8')       # fixed since Python 3
+            return NotImplemented
+        interp.on_call = on_call
     return setup
+
+
+ENV = T('sym', 'sys.stdin.encoding')
+ENV_GRID = ('utf-8', 'latin-1', 'ascii', 'utf-16', None)
+
+
+def _env_hook(v, val):
+    """The process environment the default-encoding paths consult."""
+    from ..core.values import ExtRef
+    if isinstance(v, ExtRef) and v.name == 'sys.stdin.encoding':
+        return val.get(ENV, 'utf-8')
+    if isinstance(v, T) and v.op in ('ret', 'call') and \
+            v.args[0] == 'sys.getdefaultencoding':
+        return 'utf-8'
+    if isinstance(v, T) and v.op in ('ret', 'call') and \
+            v.args[0] == 'getattr' and len(v.args) >= 3:
+        return NotImplemented
+    return NotImplemented
 
 
 def _py_decode(b, enc, errors):
@@ -84,6 +126,24 @@ def _decode(ctx):
         grid_compare(rep, 'R16.1', 'safe_decode[%s]' % kind,
                      '%s text x incoming x errors' % kind, outcomes,
                      {text: grid, inc: ENCODINGS, err: ERRORS}, oracle)
+        if kind == 'other':
+            continue
+        # incoming left out: the encoding of stdin, else the default one
+
+        def thunk_d(interp):
+            return interp.call(f, [text, K(None), err])
+        outcomes, _i = extract(world, thunk_d,
+                               setup=_setup_types(kind, (text, err)))
+
+        def oracle_d(v):
+            t = v['text']
+            if isinstance(t, str):
+                return ('return', t)
+            return _py_decode(t, v['sys.stdin.encoding'] or 'utf-8',
+                              v['errors'])
+        grid_compare(rep, 'R16.1', 'safe_decode[%s, default incoming]' % kind,
+                     '%s text x stdin encoding x errors' % kind, outcomes,
+                     {text: grid, ENV: ENV_GRID, err: ERRORS}, oracle_d)
 
 
 def _encode(ctx):
@@ -118,6 +178,22 @@ def _encode(ctx):
                 return ('return', d[1].encode(e, v['errors']))
             except UnicodeEncodeError:
                 return ('raise', 'UnicodeEncodeError')
+        if kind != 'other':
+            def thunk_d(interp):
+                return interp.call(f, [text, K(None), enc, err])
+            outs_d, _i = extract(world, thunk_d, setup=_setup_types(
+                kind, (text, enc, err)))
+
+            def oracle_d(v):
+                v = dict(v)
+                v['incoming'] = v['sys.stdin.encoding'] or 'utf-8'
+                return oracle(v)
+            grid_compare(rep, 'R16.1',
+                         'safe_encode[%s, default incoming]' % kind,
+                         '%s text x stdin encoding x encoding x errors' %
+                         kind, outs_d, {text: grid, ENV: ENV_GRID,
+                                        enc: ENCODINGS, err: ERRORS},
+                         oracle_d)
         encs = ENCODINGS if kind != 'other' else ('utf-8',)
         grid_compare(rep, 'R16.1', 'safe_encode[%s]' % kind,
                      '%s text x incoming x encoding x errors' % kind,
@@ -146,7 +222,8 @@ def _to_utf8(ctx):
             return ('raise', 'TypeError')
         # an encode that cannot fail on this grid: drop the forked raise
         grid_compare(rep, 'R16.1', 'to_utf8[%s]' % kind, '%s text' % kind,
-                     outcomes, {text: grid}, oracle)
+                     outcomes, {text: grid, ENV: ENV_GRID}, oracle,
+                     hooks=[_env_hook])
 
 
 SLUG_INPUTS = ('Hello World', '\xc0\xc9 caf\xe9', '™ trade', '№5',
